@@ -8,7 +8,7 @@ ls -d seeded/C*-m* | while read d; do s=$(basename "$d"); k=${s##*-m}; [ "$k" -g
 i=0
 for s in $(cat /tmp/seedlist_$$.txt); do
   c=${s%%-*}
-  ( VERIF_JOBS=6 dev/seeds.sh "$c" "$s" > /tmp/seedout_$$_$s.txt 2>&1 ) &
+  ( VERIF_JOBS=6 VERIF_TASK_LIMIT_S=240 dev/seeds.sh "$c" "$s" > /tmp/seedout_$$_$s.txt 2>&1 ) &
   i=$((i+1))
   if [ $((i % N)) -eq 0 ]; then wait; fi
 done
